@@ -1,5 +1,5 @@
 (** Model of the memory estimator: llm/memory.go [EstimateGPULayers], [PredictServerFit] and
-    discover/types.go [GpuInfoList.ByLibrary].  Definitions only (proofs: MemProofs.v).
+    discover/types.go [GpuInfoList.ByLibrary].  Definitions only (proofs: Mem/Proofs.v).
 
     The model follows the Go code loop for loop.  Its inputs are the abstract quantities the estimator reads
     from the model file (layer sizes, per-layer KV sizes and graph sizes as returned by GraphSize, output
@@ -76,7 +76,7 @@ Section Estimate.
   Variable maxG : N.     (* max(graphPartialOffload, graphFullOffload) *)
 
   (** "Reduce set of GPUs to only those that have sufficient space ...": the loop [for i := range gpus] *)
-  Fixpoint admit (gzo l0 : N) (i : nat) (rest : list gpu) (s : st) : st :=
+  Fixpoint adm_loop (gzo l0 : N) (i : nat) (rest : list gpu) (s : st) : st :=
     match rest with
     | [] => s
     | g :: rest' =>
@@ -88,11 +88,11 @@ Section Estimate.
       let need := w (t3 + t4) in
       let ok1 := ok s && fits (ovh + z) && fits (t1 + maxG) && fits (t2 + g_min g) && fits (2 * l0) && fits (t3 + t4) in
       if g_free g <? need then
-        admit gzo l0 (S i) rest' (mkst (ws s) (al s) (ct s) (lc s) ok1)
+        adm_loop gzo l0 (S i) rest' (mkst (ws s) (al s) (ct s) (lc s) ok1)
       else
         let a := nth i (al s) 0 in
         let d := w (g_min g + l0) in
-        admit gzo l0 (S i) rest'
+        adm_loop gzo l0 (S i) rest'
           (mkst (ws s ++ [i]) (upd (al s) i (fun x => w (x + d))) (ct s) (lc s)
                 (ok1 && fits (g_min g + l0) && fits (a + d)))
     end.
@@ -168,7 +168,7 @@ End Estimate.
 
 Definition osz (o : option N) : N := match o with Some x => x | None => 0 end.
 
-(** the MemoryEstimate returned, plus the internal plan (p_*) and the no-wrap flag *)
+(** the MemoryEstimate returned, plus the internal plan (fields p_...) and the no-wrap flag *)
 Record result := mkresult {
   r_layers : N;           (* Layers *)
   r_graph : N;            (* Graph *)
@@ -188,10 +188,20 @@ Record result := mkresult {
   r_ok : bool
 }.
 
-Definition estimate (gs : list gpu) (m : model) (o : opts) : result :=
+(** Phase 1: everything EstimateGPULayers computes before it looks at the GPUs' memory *)
+Record prep := mkprep {
+  q_mm : bool;            (* a projector path was given, i.e. opts.NumCtx = max(opts.NumCtx, 2048) happened *)
+  q_pw : N; q_pg : N;     (* projectorWeights / projectorGraph *)
+  q_l0 : N;               (* layerSize before the block loop: blk.0 (+ kv[0]) *)
+  q_kvt : N;              (* kvTotal *)
+  q_gp : N; q_gf : N;     (* graphPartialOffload / graphFullOffload after the metal / multi-GPU adjustment *)
+  q_mout : N;             (* memoryLayerOutput *)
+  q_ok : bool             (* nothing wrapped so far *)
+}.
+
+Definition prepare (gs : list gpu) (m : model) (o : opts) : prep :=
   let lib := g_lib (hd gpu0 gs) in
-  let ovh := o_overhead o in
-  let mm := match o_proj o with [] => false | _ => true end in   (* opts.NumCtx = max(opts.NumCtx, 2048) happened *)
+  let mm := match o_proj o with [] => false | _ => true end in
   (* projectors *)
   let pw0 := sum_w (map fst (o_proj o)) in
   let pg0 := sum_w (map snd (o_proj o)) in
@@ -211,40 +221,54 @@ Definition estimate (gs : list gpu) (m : model) (o : opts) : result :=
     if eqb_str lib s_metal then (gf1, gf1)
     else if (1 <? length gs)%nat then (gp1, gp1)
     else (gp1, gf1) in
-  let maxG := N.max gp gf in
   (* output *)
   let on := osz (m_out_norm m) in
   let oo := match m_out m with Some x => x | None => osz (m_tok m) end in
-  let mout := w (on + oo) in
-  let gzo := w (pw + pg) in
-  let ok0 := ok_p && ok_l && ok_k && ok_g && fits (on + oo) && fits (pw + pg) in
+  mkprep mm pw pg l0 kvt gp gf (w (on + oo)) (ok_p && ok_l && ok_k && ok_g && fits (on + oo)).
+
+(** Phase 2: "Reduce set of GPUs ..." and the projector on the first admitted GPU *)
+Definition admission (gs : list gpu) (ovh maxG gzo l0 : N) (ok0 : bool) : st :=
   let n := length gs in
-  (* admission *)
-  let s0 := mkst [] (repeat 0 n) (repeat 0 n) 0 ok0 in
-  let s1 := admit ovh maxG gzo l0 O gs s0 in
-  let s2 := match ws s1 with
-            | z :: _ => mkst (ws s1) (upd (al s1) z (fun x => w (x + gzo))) (ct s1) (lc s1)
-                             (ok s1 && fits (nth z (al s1) 0 + gzo))
-            | [] => s1
-            end in
-  (* blocks *)
-  let bc := N.of_nat (length (m_blocks m)) in
-  let '(lsz, mw, s3) := blocks_loop gs ovh maxG (o_numgpu o) mm O (m_blocks m) l0 0 s2 in
+  let s1 := adm_loop ovh maxG gzo l0 O gs (mkst [] (repeat 0 n) (repeat 0 n) 0 ok0) in
+  match ws s1 with
+  | z :: _ => mkst (ws s1) (upd (al s1) z (fun x => w (x + gzo))) (ct s1) (lc s1)
+                   (ok s1 && fits (nth z (al s1) 0 + gzo))
+  | [] => s1
+  end.
+
+(** Phase 3: the block loop, fullyLoaded / overflow, the output layer *)
+Record plan := mkplan { pl_st : st; pl_fully : bool; pl_ovf : N; pl_mw : N; pl_ok : bool }.
+
+Definition layout (gs : list gpu) (ovh maxG : N) (ng : Z) (mm : bool) (blocks : list (option N * N * N))
+                  (l0 mout : N) (s2 : st) : plan :=
+  let bc := N.of_nat (length blocks) in
+  let '(lsz, mw, s3) := blocks_loop gs ovh maxG ng mm O blocks l0 0 s2 in
   let '(fully0, ovf0, ok_o) :=
     if bc <=? lc s3 then (true, 0, true)
     else (false, w ((bc - lc s3) * lsz), fits ((bc - lc s3) * lsz)) in
-  (* output layer *)
   let '(s4, fully, ovf, ok_o2) :=
-    if (0 <? mout) && negb (capped (o_numgpu o) (lc s3)) then
+    if (0 <? mout) && negb (capped ng (lc s3)) then
       let s' := place_out gs ovh maxG mout (length (ws s3)) s3 in
       if lc s' <? bc + 1 then (s', false, w (ovf0 + mout), fits (ovf0 + mout)) else (s', fully0, ovf0, true)
     else (s3, fully0, ovf0, true) in
-  (* graph add-back *)
-  let g := if fully then gf else gp in
+  mkplan s4 fully ovf mw (ok s4 && ok_o && ok_o2).
+
+(** Phase 4: graph add-back, the sums, the early returns *)
+Definition estimate (gs : list gpu) (m : model) (o : opts) : result :=
+  let lib := g_lib (hd gpu0 gs) in
+  let n := length gs in
+  let q := prepare gs m o in
+  let ovh := o_overhead o in
+  let maxG := N.max (q_gp q) (q_gf q) in
+  let gzo := w (q_pw q + q_pg q) in
+  let s2 := admission gs ovh maxG gzo (q_l0 q) (q_ok q && fits (q_pw q + q_pg q)) in
+  let p := layout gs ovh maxG (o_numgpu o) (q_mm q) (m_blocks m) (q_l0 q) (q_mout q) s2 in
+  let s4 := pl_st p in
+  let g := if pl_fully p then q_gf q else q_gp q in
   let '(als, ok_a) := add_graph g (al s4) (ct s4) in
   let partial := sum_w als in
-  let total := w (partial + ovf) in
-  let okf := ok s4 && ok_o && ok_o2 && ok_a && fits (sum_x als) && fits (partial + ovf) in
+  let total := w (partial + pl_ovf p) in
+  let okf := pl_ok p && ok_a && fits (sum_x als) && fits (partial + pl_ovf p) in
   let early := eqb_str lib s_cpu || (lc s4 =? 0) in
   mkresult
     (if early then 0 else lc s4)
@@ -253,7 +277,7 @@ Definition estimate (gs : list gpu) (m : model) (o : opts) : result :=
     total
     (if early then [] else als)
     (if early || negb (1 <? n)%nat then [] else ct s4)
-    als (ct s4) (lc s4) fully gp gf mout pw pg kvt mw okf.
+    als (ct s4) (lc s4) (pl_fully p) (q_gp q) (q_gf q) (q_mout q) (q_pw q) (q_pg q) (q_kvt q) (pl_mw p) okf.
 
 (** EstimateGPULayers indexes gpus[0] unconditionally: an empty list is a run-time panic *)
 Definition estimate_gpus (gs : list gpu) (m : model) (o : opts) : option result :=
